@@ -236,8 +236,8 @@ def import_repo():
                 del sys.modules[k]
 
 
-class Timeout(Exception):
-    pass
+class Timeout(BaseException):
+    """not an Exception: code under test that catches Exception must not swallow the watchdog"""
 
 
 def _alarm(signum, frame):
@@ -246,7 +246,8 @@ def _alarm(signum, frame):
 
 def _guarded_inner(fn, item, tmo):
     signal.signal(signal.SIGALRM, _alarm)
-    signal.setitimer(signal.ITIMER_REAL, tmo)
+    # repeating: if the first alarm is swallowed by a bare except the next one still ends the call
+    signal.setitimer(signal.ITIMER_REAL, tmo, 0.5)
     try:
         return ("ok", fn(item))
     except Timeout:
